@@ -42,6 +42,7 @@ func cfgFor(prop string, r *Rng) GenCfg {
 		f["attachment"], f["resource"] = 10, 3
 	case "C25":
 		f["capability"], f["storage"], f["resource"] = 12, 2, 1
+		c.BigRate = 0.25
 	case "C26":
 		f["contract"], f["storage"] = 10, 1
 	default: // everything at once: C01, C31, C33, C34 and the shared sweeps
